@@ -774,3 +774,58 @@ def gatesLine (ln : Nat) (line : String) (r : Report) : Report :=
   | _ => r.mdiff "parse" s!"line {ln}: bad GC line"
 
 end MqttVerif.Driver
+
+namespace MqttVerif.Driver
+open MqttVerif MqttVerif.Conn
+
+structure PairSt where
+  name : String := ""
+  losses : Nat := 0
+deriving Inhabited
+
+def pairStart (ws : List String) : PairSt :=
+  match ws with
+  | name :: rest =>
+    let get (k : String) : String := match rest.find? (·.startsWith k) with | some w => (w.drop k.length).toString | none => ""
+    { name := name, losses := (get "losses=").toNat?.getD 0 }
+  | [] => {}
+
+/-- `PM …` lines of a two-endpoint run: the observations C01 is about -/
+def pairLine (st : PairSt) (ln : Nat) (line : String) (r : Report) : Report :=
+  let ws := words line
+  let get : String → String := fun k => match ws.find? (·.startsWith k) with | some w => (w.drop k.length).toString | none => ""
+  let here := s!"{st.name} line {ln}"
+  let r := { r with calls := r.calls + 1 }
+  match ws with
+  | "PM" :: "msg" :: tag :: _ =>
+    let qos := (get "qos=").toNat?.getD 0
+    let n := (get "delivered=").toNat?.getD 0
+    let r := r.tag s!"pair.msg.q{qos}.{if (get "accepted=") == "1" then "accepted" else "refused"}"
+    let r := if (get "accepted=") == "1" then
+        (if !Mon.deliveryOk qos n (st.losses == 0) then
+          r.viol s!"C01 delivery_count.qos{qos}@pair" s!"{here}: message {tag} (QoS {qos}, from {get "from="}) was accepted by the sender and notified {n} time(s) at the receiver ({st.losses} transport losses in this run)" else r)
+      else (if !Mon.refusedOk n then
+          r.viol s!"C01 refused_but_delivered@pair" s!"{here}: message {tag} was refused by the sender yet notified {n} time(s)" else r)
+    if (get "topic_ok=") != "1" then
+      r.viol s!"C01 wrong_topic@pair" s!"{here}: message {tag} was notified with a topic other than the one the application asked for" else r
+  | "PM" :: "err" :: _ =>
+    r.viol s!"C01 protocol_error_about_peer.{get "code="}@pair.{get "side="}" s!"{here}: endpoint {get "side="} reported NotifyError {get "code="} while processing bytes its conformant peer requested to send"
+  | "PM" :: "closes" :: _ =>
+    let r := if (get "c=") != "0" || (get "s=") != "0" then
+        r.viol "C01 close_requested@pair" s!"{here}: an endpoint requested to close the transport although both sides follow the protocol (client {get "c="}, server {get "s="})" else r
+    if (get "panic_c=") != "0" || (get "panic_s=") != "0" then
+      r.viol "C01 panic@pair" s!"{here}: an endpoint panicked" else r
+  | "PM" :: "drain" :: _ =>
+    if (get "ok=") != "1" then
+      r.viol "C01 no_termination@pair" s!"{here}: with no further application input and no further loss the exchange did not drain within {get "steps="} deliveries" else r
+  | "PM" :: "quiescent" :: _ =>
+    let side := get "side="
+    let r := if (get "stored=") != "0" then
+        r.viol s!"C01 store_not_empty@pair.{side}" s!"{here}: at quiescence endpoint {side} still stores {get "stored="} packet(s)" else r
+    let r := if (get "ids_free=") != "1" then
+        r.viol s!"C01 ids_not_released@pair.{side}" s!"{here}: at quiescence endpoint {side} still has packet identifiers in use" else r
+    if (get "vacancy=") != (get "rm=") then
+      r.viol s!"C01 vacancy_not_restored@pair.{side}" s!"{here}: at quiescence endpoint {side} reports Receive Maximum vacancy {get "vacancy="}, the peer announced {get "rm="}" else r
+  | _ => r.mdiff "parse" s!"{here}: bad PM line `{line.take 80}`"
+
+end MqttVerif.Driver
